@@ -168,6 +168,15 @@ func (e *Ev) specExpr(s string) Term {
 				bs = strings.ReplaceAll(bs, nm+")", "(- "+p+" "+off+"))")
 				bs = strings.ReplaceAll(bs, nm+" ", "(- "+p+" "+off+") ")
 				pat := strings.ReplaceAll(sel, "(+ "+off+" "+nm+")", p)
+				if q == "exists" {
+					// witnesses of existentials over slice positions are marked with slot$ (always
+					// true), and the marker is an alternative trigger: a witness found in one heap
+					// version instantiates the negated existentials over every other version
+					e.g().Pre.add("(declare-fun slot$ (Int) Bool)")
+					e.g().Pre.add("(assert (forall ((p Int)) (! (slot$ p) :pattern ((slot$ p)))))")
+					versions = append(versions, fmt.Sprintf("(exists ((%s Int)) (! (and (slot$ %s) %s) :pattern (%s) :pattern ((slot$ %s))))", p, p, bs, pat, p))
+					continue
+				}
 				versions = append(versions, fmt.Sprintf("(%s ((%s Int)) (! %s :pattern (%s)))", q, p, bs, pat))
 			}
 			if len(versions) > 0 {
